@@ -14,6 +14,7 @@ Calls are interpreted by the model table (models.py).  Closures are interpreted 
 Exploration terminates because every domain is finite and (block, state) pairs are memoised.
 """
 import itertools
+import re
 
 TOP = ("top",)
 UNIT = ("unit",)
@@ -91,7 +92,7 @@ class State:
         return self.inps[-1 if n is None else n]
 
     SEG_KINDS = {"emit": 0, "add_alt": 3, "add_alt_err": 2, "memwrite": 2, "memo": 1, "rewind_input": 0,
-                 "cap": 3, "stash": 2, "oparg": 2}
+                 "cap": 3, "stash": 2, "oparg": 2, "uarg": 1}
 
     def ev(self, *e):
         self.trace = self.trace + (e,)
@@ -166,10 +167,60 @@ def taint_of(v):
     return frozenset()
 
 
+CLOSURE_DIGESTS = {}
+
+
+def closure_digest(facts, key, depth=0):
+    """Order- and name-insensitive digest of a closure body: the callees it uses and the literal constants it
+    mentions (nested closures included).  Two predicates with the same digest are treated as the same guard."""
+    if key in CLOSURE_DIGESTS:
+        return CLOSURE_DIGESTS[key]
+    b = facts.by_key.get(key)
+    items = set()
+    if b is not None:
+        for bl in b["blocks"]:
+            if bl["cleanup"]:
+                continue
+            for st in bl["stmts"]:
+                if st["k"] != "assign":
+                    continue
+                rv = st["rv"]
+                for o in [rv.get("op"), rv.get("a"), rv.get("b")] + list(rv.get("ops") or []):
+                    if isinstance(o, dict) and "k" in o and "val" in o["k"]:
+                        v = o["k"]["val"].replace("const ", "").strip()
+                        if v not in ("()", "false", "true") and not v.startswith("ZeroSized") and len(v) < 90:
+                            items.add(v.split(":")[0] if v.startswith("promoted&") else v)
+                if rv["k"] == "bin":
+                    items.add(rv["op"])
+                if rv["k"] == "agg" and rv.get("ak") == "closure" and depth < 3:
+                    items.add("fn<" + closure_digest(facts, rv["closure_key"], depth + 1) + ">")
+            t = bl["term"]
+            if t["k"] == "call":
+                f = t["func"].get("k", {}).get("fn")
+                if f is not None:
+                    items.add(f["name"])
+                for a in t["args"]:
+                    o = a["op"]
+                    if "k" in o and "val" in o["k"]:
+                        v = o["k"]["val"].replace("const ", "").strip()
+                        if v not in ("()", "false", "true") and len(v) < 90:
+                            items.add(v.split(":")[0] if v.startswith("promoted&") else v)
+            if t["k"] == "switch":
+                for v, _ in t["targets"]:
+                    if v not in (0, 1):
+                        items.add("case%s" % v)
+    items = {re.sub(r"promoted&\[([0-9a-f]*)\]\+\d+", r"lit(\1)", x) for x in items}
+    d = "+".join(sorted(x.replace(" ", "").replace("{", "<").replace("}", ">") for x in items))
+    CLOSURE_DIGESTS[key] = d
+    return d
+
+
 def term_of(v):
     """Symbolic term of a scalar-ish value for guard facts."""
     if not isinstance(v, tuple):
         return ("?",)
+    if v[0] == "closure":
+        return ("fn", CLOSURE_DIGESTS.get(v[1], "?"))
     if v[0] == "sym":
         return v[1]
     if v[0] == "const":
@@ -298,7 +349,11 @@ class Interp:
         self.cur_root = None
         self.unknown_callees = {}
         self.spec = None
+        for b_ in facts.bodies:
+            if b_["kind"] == "Closure":
+                closure_digest(facts, b_["key"])
         self.edges = {}      # root uname -> set of edges
+        self.inlined = set()  # keys of closure bodies interpreted inline
         self.reset_logs()
 
     def reset_logs(self):
@@ -1030,6 +1085,7 @@ class Frame:
         if body is None:
             raise AnalysisError("closure body %s not found" % clos[1])
         self.I.stats["closures_inlined"] += 1
+        self.I.inlined.add(clos[1])
         env = mk_struct({str(i): v for i, v in enumerate(clos[2])})
         ty1 = body["locals"][1]["ty"]
         st = self.st.copy()
@@ -1092,6 +1148,8 @@ def repr_term(t):
         return "%s(%s)" % (t[1], ", ".join(repr_term(x) for x in t[2]))
     if t[0] == "abs":
         return "_"
+    if t[0] == "fn":
+        return "fn<%s>" % t[1]
     if not isinstance(t[0], str):
         return "(%s)" % ", ".join(repr_term(x) for x in t)
     return "%s(%s)" % (t[0], ", ".join(repr_term(x) for x in t[1:]))
